@@ -5,6 +5,7 @@ import ast
 from ..index import unparse, iter_own_nodes, AnalysisError
 from ..cfg import calls_in_node, INF, handler_catches_all_exceptions
 from ..framework import stores_to_name, assigned_values
+from ..contain import protecting_handler
 from . import common
 
 EXPLANATION = (
@@ -522,6 +523,16 @@ def rule_mro(chk):
         chk.ok("C03.mro", "get_fields_for_exception:lookup-not-stale", chk.where(gf), "the lookup keeps no state between failures")
     from . import c07
     sites = [s for f_, s, w in c07.core_sites(chk) if f_ is gf]
+    for s in sites:
+        # whatever an extractor raises must not replace the application's exception or cost the action its end message:
+        # the pinned code contains it with a bare except; `except Exception` lets BaseException subclasses (asyncio.CancelledError
+        # from reading a cancelled future, GeneratorExit, ...) escape finish() after the action is already marked finished
+        ph = protecting_handler(s.ctx)
+        if ph is not None:
+            h = ph[1]
+            chk.req(h.type is None or unparse(h.type) == "BaseException", "C03.extract", "get_fields_for_exception:extractor-failure-fully-contained", s.where,
+                    good="the extractor call sits in a catch-all handler", fail="the extractor call is protected by `except %s` only: an extractor raising a BaseException outside Exception escapes "
+                    "finish() -- the action gets no end message and the caller sees the extractor's exception instead of the application's" % (unparse(h.type) if h.type is not None else ""))
     for s in sites:
         c = s.call
         chk.req(len(c.args) == 1 and isinstance(c.args[0], ast.Name) and c.args[0].id == ename, "C03.mro",
